@@ -5,6 +5,7 @@ import (
 	"os"
 	"path/filepath"
 	"sort"
+	"strings"
 	"time"
 
 	"verif/core"
@@ -12,22 +13,24 @@ import (
 
 // Summary of a campaign (a set of scenarios run to completion).
 type Summary struct {
-	Executions   int
-	Steps        int
-	States       map[uint64]struct{}
-	Outcomes     *core.Counter
-	Done         int
-	Inconclusive int
-	Died         int
-	OtherViols   map[string]int // violations of properties outside the focus, by property
-	RuleActive   int            // executions in which every rule took effect at least once
-	ByFamily     map[string]int
-	MaxRound     int64
-	MultiRound   int
-	Crashes      int
-	Samples      *core.Sampler
-	Deadline     bool
-	Skipped      int
+	Executions    int
+	Steps         int
+	States        map[uint64]struct{}
+	Outcomes      *core.Counter
+	Done          int
+	Inconclusive  int
+	Died          int
+	OtherViols    map[string]int // violations of properties outside the focus, by property
+	RuleActive    int            // executions in which every rule took effect at least once
+	ByFamily      map[string]int
+	MaxRound      int64
+	MultiRound    int
+	Crashes       int
+	Samples       *core.Sampler
+	Deadline      bool
+	Skipped       int
+	NotReproduced int
+	ConfirmRuns   int
 }
 
 // CampaignOpts controls RunCampaign.
@@ -52,6 +55,14 @@ func RunCampaign(run *core.Run, scs []*Scenario, o CampaignOpts) *Summary {
 	start := time.Now()
 	todo := scs
 	base := filepath.Join(run.WorkDir(), "pool")
+	type candidate struct {
+		sc     *Scenario
+		prop   string
+		sig    map[string]string
+		detail string
+	}
+	cands := map[string][]candidate{}
+	var candOrder []string
 	handle := func(out CaseOutcome) {
 		sum.Executions++
 		sc := out.Sc
@@ -113,7 +124,17 @@ func RunCampaign(run *core.Run, scs []*Scenario, o CampaignOpts) *Summary {
 				for k, x := range v.Sig {
 					sig[k] = x
 				}
-				run.Report(sig, sc, v.Detail+" | scenario: "+sc.String())
+				detail := v.Detail + " | scenario: " + sc.String()
+				if run.IsKnown(sig) {
+					run.Report(sig, sc, detail)
+					continue
+				}
+				// a new violation class is reported only after the scenario reproduced it (see confirm below)
+				key := v.Prop + "|" + sigString(sig)
+				if _, ok := cands[key]; !ok {
+					candOrder = append(candOrder, key)
+				}
+				cands[key] = append(cands[key], candidate{sc, v.Prop, sig, detail})
 			} else {
 				sum.OtherViols[v.Prop]++
 			}
@@ -139,8 +160,60 @@ func RunCampaign(run *core.Run, scs []*Scenario, o CampaignOpts) *Summary {
 		}
 		todo = todo[k:]
 	}
+	// confirmation: executions are deterministic (the harness owns every choice), so a violation must
+	// show again when its scenario is run again; a class is reported once one of its scenarios (at most
+	// three are tried) reproduces it twice more, otherwise it is recorded as not reproducible
+	for _, key := range candOrder {
+		list := cands[key]
+		confirmed := false
+		for i := 0; i < len(list) && i < 3 && !confirmed; i++ {
+			c := list[i]
+			var again []*Scenario
+			for k := 0; k < 2; k++ {
+				cp := *c.sc
+				cp.ID = k
+				again = append(again, &cp)
+			}
+			hits := 0
+			RunPool(again, PoolOpts{Workers: 2, WorkBase: base + "-confirm"}, func(out CaseOutcome) {
+				sum.ConfirmRuns++
+				if out.Res == nil {
+					return
+				}
+				for _, v := range out.Res.Viols {
+					if v.Prop == c.prop && sigString(v.Sig) == sigString(c.sig) {
+						hits++
+						return
+					}
+				}
+			})
+			confirmed = hits == 2
+		}
+		if confirmed {
+			for _, c := range list {
+				run.Report(c.sig, c.sc, c.detail)
+			}
+		} else {
+			sum.NotReproduced++
+			run.Notes = append(run.Notes, fmt.Sprintf("violation candidate %s (%d scenarios, first: %s) did not show again when its scenario was re-run twice - not reported; executions are meant to be deterministic, so this points at the harness", key, len(list), list[0].sc.String()))
+		}
+	}
 	os.RemoveAll(base)
+	os.RemoveAll(base + "-confirm")
 	return sum
+}
+
+func sigString(sig map[string]string) string {
+	ks := make([]string, 0, len(sig))
+	for k := range sig {
+		ks = append(ks, k)
+	}
+	sort.Strings(ks)
+	var b strings.Builder
+	for _, k := range ks {
+		b.WriteString(k + "=" + sig[k] + ";")
+	}
+	return b.String()
 }
 
 // Coverage renders the summary as evidence coverage.
@@ -168,6 +241,8 @@ func (s *Summary) Coverage(rule string, bounds map[string]interface{}) core.Cove
 		"violations_of_other_properties_seen": other,
 		"exhaustive":                          !s.Deadline && s.Inconclusive == 0,
 		"skipped_by_budget":                   s.Skipped,
+		"violation_candidates_not_reproduced": s.NotReproduced,
+		"confirmation_runs":                   s.ConfirmRuns,
 		"bounds":                              bounds,
 		"samples":                             s.Samples.List(),
 	}
